@@ -13,19 +13,24 @@ SDL = "type Query { a: Int b: [String!] }"
 Q = "query GetIt { a }"
 
 _PK = {}
-with opened_auditwall():
-    _BASE = tempfile.mkdtemp(prefix="vh12_")
-    for _name, _cfg in (("sync", {"async_client": False}), ("asyn", {"async_client": True})):
-        _r = gen.generate({"schema": SDL, "queries": Q, "config": dict(_cfg, target_package_name="p_" + _name)})
-        assert _r["ok"], _r
-        _d = os.path.join(_BASE, "p_" + _name)
-        os.makedirs(_d)
-        for _fn, _src in _r["files"].items():
-            with open(os.path.join(_d, _fn), "w") as _f:
-                _f.write(_src)
-    sys.path.insert(0, _BASE)
-    for _name in ("sync", "asyn"):
-        _PK[_name] = importlib.import_module("p_" + _name)
+SETUP_ERROR = ""
+try:
+    with opened_auditwall():
+        _BASE = tempfile.mkdtemp(prefix="vh12_")
+        for _name, _cfg in (("sync", {"async_client": False}), ("asyn", {"async_client": True})):
+            _r = gen.generate({"schema": SDL, "queries": Q, "config": dict(_cfg, target_package_name="p_" + _name)})
+            if not _r["ok"]:
+                raise RuntimeError(f"generation failed: {_r['exc_type']}: {_r['exc_msg']}")
+            _d = os.path.join(_BASE, "p_" + _name)
+            os.makedirs(_d)
+            for _fn, _src in _r["files"].items():
+                with open(os.path.join(_d, _fn), "w") as _f:
+                    _f.write(_src)
+        sys.path.insert(0, _BASE)
+        for _name in ("sync", "asyn"):
+            _PK[_name] = importlib.import_module("p_" + _name)
+except Exception as _e:
+    SETUP_ERROR = f"{type(_e).__name__}: {_e}"
 
 
 def run_method(which: str, resp):
@@ -68,6 +73,8 @@ def expected(which: str, status, json_ok, body):
 
 
 def _check(which, status, json_ok, kind, has_data, data_kind, has_errors, n_err, e0, e1, extra):
+    if SETUP_ERROR:
+        return False
     body = LazyBody(kind, has_data, data_kind, has_errors, n_err, e0, e1, extra)
     jo = True if json_ok else False
     got = run_method(which, StubResponse(status, jo, body))
@@ -96,6 +103,8 @@ def twin_ok_reached(status: int, json_ok: bool, kind: int, has_data: bool, data_
     pre: 100 <= status <= 599
     post: _
     """
+    if SETUP_ERROR:
+        return True
     body = LazyBody(kind, has_data, data_kind, has_errors, n_err, e0, e1, extra)
     got = run_method("asyn", StubResponse(status, True if json_ok else False, body))
     return not (got[0] == "ok")
